@@ -39,6 +39,7 @@ type C17Case struct {
 	Markers  []string          `json:"markers,omitempty"`
 	Env      map[string]string `json:"env,omitempty"`
 	NoHome   bool              `json:"no_home,omitempty"`
+	CwdGone  bool              `json:"cwd_gone,omitempty"` // the working directory was removed before the tool started: os.Getwd fails
 	Steps    []C17Step         `json:"steps"`
 }
 
@@ -199,6 +200,10 @@ func genC17(rt *rapid.T) C17Case {
 		c.Notebook = genDB(rt, 4)
 	}
 	c.Markers = rapid.SliceOfNDistinct(rapid.SampledFrom(c17Markers), 0, 4, rapid.ID[string]).Draw(rt, "markers")
+	if rapid.IntRange(0, 7).Draw(rt, "cwdgone") == 0 {
+		c.CwdGone = true
+		c.Markers = nil
+	}
 	c.Env = map[string]string{}
 	switch rapid.IntRange(0, 3).Draw(rt, "nocolorenv") {
 	case 0:
@@ -359,6 +364,9 @@ func runC17(c C17Case) *Outcome {
 		} else {
 			w.disk.WriteRaw("/home/u/work/"+m, []byte("x\n"), 0o644)
 		}
+	}
+	if c.CwdGone {
+		w.disk.Cwd = "/home/u/removed-meanwhile"
 	}
 	for k, v := range c.Env {
 		w.disk.Env[k] = v
